@@ -161,7 +161,9 @@ class Vertex(base.BaseObject):
         if args in self.__qa_nb_cache:
             self._qa_stats()[0] += 1
 
-            return self.__qa_nb_cache[args]
+            # hand out a copy: the caller owns what it gets, the cache keeps
+            # its own list
+            return list(self.__qa_nb_cache[args])
 
         self._qa_stats()[1] += 1
         return self._QA_NB_INVALID
@@ -211,7 +213,7 @@ class Vertex(base.BaseObject):
         if not self.NEIGHBOR_CACHING:
             return
         self._qa_stats()[3] += 1
-        self.__qa_nb_cache[args] = answer
+        self.__qa_nb_cache[args] = list(answer)
 
     def add_to_link(self, link: Link):
         """
